@@ -252,7 +252,7 @@ func respProbes(o *Outcome, v *View) {
 	if len(v.OwnUps) > 0 && u.Reply.Enc != "" {
 		pr["enc:"+u.Reply.Enc]++
 	}
-	if r.Res.Header.Get("Content-Encoding") != u.Reply.Enc {
+	if r.Res.Header.Get("Content-Encoding") != wireEnc(u.Reply.Enc) {
 		pr["transcoded-for-client"]++
 	}
 	if len(u.BodyRaw) == 0 {
